@@ -91,9 +91,35 @@ def configs(draw, spec):
             "group": draw(st.integers(0, 3)) > 0}
 
 
+def nano_power(spec, k=1e-8):
+    """The same system with every load and every quiescent / ground / sleep current scaled by
+    k: all losses end up in the nano-watt range and below."""
+    sp = S.clone(spec)
+    for n in sp["nodes"]:
+        p = n["params"]
+        for key in ("pwr", "pwrs", "ii", "iis", "iq"):
+            if key in p and not isinstance(p[key], dict):
+                p[key] = p[key] * k
+        if "ig" in p:
+            if isinstance(p["ig"], dict):
+                p["ig"] = dict(p["ig"], ig=[[v * k for v in row] for row in p["ig"]["ig"]],
+                               io=[x * k for x in p["ig"]["io"]])
+            else:
+                p["ig"] = p["ig"] * k
+        if n["kind"] == "RLoad":
+            p["rs"] = p["rs"] / k
+        pc = n.get("pconf")
+        if isinstance(pc, dict):
+            n["pconf"] = {ph: (v / k if n["kind"] == "RLoad" else v * k) for ph, v in pc.items()}
+    return sp
+
+
 @st.composite
 def cases(draw, opts):
     spec = draw(G.systems(opts))
+    if draw(st.integers(0, 7)) == 3:
+        spec = nano_power(spec)
+        spec["_nano"] = True
     return {"spec": spec, "conf": draw(configs(spec))}
 
 
@@ -330,6 +356,8 @@ def body(case, stats):
         if any(attr in ov.get(n["name"], {}) for n in spec["nodes"]):
             lv += 1
         levels = max(levels, lv)
+    if spec.get("_nano"):
+        stats.cls("nano_power_system")
     stats.cls("groups={}".format(min(len(groups), 3)))
     stats.cls("override_levels={}".format(levels))
     stats.cls("grouping_on" if conf["group"] else "grouping_off")
